@@ -702,6 +702,74 @@ def pure_streams(ctx, xcheck, scale):
                 ctx.violation("backend read trace differs from content[pos:]", {"key": "c01-file-read", "block": block, "content": content.hex(), "pos": pos})
         ctx.count("read_traces_vs_bytesio_and_file", len(ft_cases))
 
+        # ---- (b2) TIMED read traces: the real ThrottleStreamIO.read / iter_by_block on a virtual clock
+        # (segments fed to the real StreamReader at scripted instants, every wait("read") sleeping a
+        # scripted delay) vs Model/TransferTimed.timed_trace with the `scripted` timing: same blocks
+        # at the same instants.  Time changes the trace; it must not change the concatenation.
+        tt_cases = []
+        for _ in range(150 * scale):
+            nseg = rng.randint(0, 6)
+            t = 0
+            net = []
+            for _ in range(nseg):
+                t += rng.choice([0, 0, 1, 3, 10, 40, 1000])
+                net.append([t, bytes(rng.randrange(256) for _ in range(rng.randint(1, 7)))])
+            block = rng.choice([1, 2, 3, 4, 7, 64])
+            delays = [rng.choice([0, 0, 1, 2, 5, 17, 100, 5000]) for _ in range(rng.randint(0, 8))]
+            tt_cases.append((block, delays, net))
+        mo = ctx.model([(13, [b, [], d, 0, n]) for b, d, n in tt_cases])
+
+        async def timed_main(_net):
+            vloop = asyncio.get_running_loop()
+            outs = []
+            for block, delays, net in tt_cases:
+                base = vloop.time()
+                reader = asyncio.StreamReader()
+                script = list(delays)
+
+                class Scripted(aioftp.ThrottleStreamIO):
+                    async def wait(self, name):  # the only override: WHEN, not WHAT
+                        d = script.pop(0) if script else 0
+                        if d:
+                            await asyncio.sleep(d)
+
+                stream = Scripted(reader, None)
+                # one timer per distinct instant (timers of equal time have no defined order)
+                by_time = {}
+                for at, seg in net:
+                    by_time.setdefault(at, []).append(seg)
+                for at, group in by_time.items():
+                    vloop.call_at(base + at, lambda g=group: [reader.feed_data(x) for x in g])
+                vloop.call_at(base + (net[-1][0] if net else 0) + 0.5, reader.feed_eof)
+                out = []
+                async for d in stream.iter_by_block(block):
+                    out.append((vloop.time() - base, d))
+                outs.append(out)
+                await asyncio.sleep(10)
+            return outs
+
+        from harness import simnet as _simnet
+
+        reals = _simnet.run(timed_main)
+        n_time_matters = 0
+        for (block, delays, net), m, real in zip(tt_cases, mo, reals):
+            ctx.case(("timed_trace", block, tuple(delays), tuple((a, s) for a, s in net)))
+            ctx.traces_impl += 1
+            mt = [(num / den, bytes(d)) for num, den, d in m]
+            ok = mt and mt[-1][1] == b"" and [(float(t), d) for t, d in mt[:-1]] == [(float(t), d) for t, d in real]
+            if not ok:
+                ctx.disagree("timed_trace", [block, delays, [[a, s.hex()] for a, s in net]], [[t, d.hex()] for t, d in mt], [[t, d.hex()] for t, d in real])
+            whole = b"".join(s for _, s in net)
+            if b"".join(d for _, d in real) != whole or any(not d or len(d) > block for _, d in real):
+                ctx.violation("timed reads (real ThrottleStreamIO.read on a virtual clock) broke the read contract", {"key": "c01-timed-read-contract", "block": block, "delays": delays, "net": [[a, s.hex()] for a, s in net]})
+            untimed = [whole[i : i + block] for i in range(0, len(whole), block)]
+            if [d for _, d in real] != untimed:
+                n_time_matters += 1
+            if len(xcheck) < 30:
+                xcheck.append((13, [block, [], delays, 0, net], m))
+        ctx.count("timed_read_traces_vs_throttlestreamio", len(tt_cases))
+        ctx.count("timed_traces_where_time_changed_the_blocks", n_time_matters)
+
         # ---- (c) the iterator as written, on scripted traces (conforming or not)
         it_cases = []
         for _ in range(250 * scale):
